@@ -41,6 +41,35 @@ class C17(Prop):
             yield {"op": "lists", "lists": files}
             if i % 3 == 0:
                 yield {"op": "ulists", "lists": files}
+        # long lists: sizes past any threshold at which an implementation might switch representation
+        # (index, hash set, sorted vector), with removals and re-additions after the list has grown
+        sizes = [33, 40, 65, 70, 130] if tier == "quick" else [33, 40, 65, 70, 130, 260, 520, 1030, 4100]
+        for i in range(40 if tier == "quick" else 600):
+            r = Rng(seed, "C17long", i)
+            n = r.choice(sizes)
+            base = ["app%03d" % k for k in range(n)]
+            files = [list(base)] if r.chance(1, 2) else [base[: n // 2], base[n // 2:]]
+            ops = []
+            for _ in range(r.range(2, 12)):
+                x = "app%03d" % r.below(n + 3)
+                ops += r.choice([["~" + x, x], ["~" + x], [x], ["~" + x, "other", x], ["~" + x, "~" + x, x, x], [x, "~" + x, x]])
+            where = r.choice(["same", "next", "split"])
+            if where == "same":
+                files[-1] = files[-1] + ops
+            elif where == "next":
+                files.append(ops)
+            else:
+                k = r.below(len(ops) + 1)
+                files.append(ops[:k])
+                files.append(ops[k:])
+            yield {"op": "lists", "lists": files, "fam": "long"}
+            if i % 2 == 0:
+                yield {"op": "ulists", "lists": files, "fam": "long"}
+            if i % 8 == 0:
+                # the same through a real inventory: classes contribute the long list, the node removes and re-adds
+                cls = [{"path": "classes/big%d.yml" % j, "content": {"applications": f}} for j, f in enumerate(files[:-1] or files)]
+                node = {"path": "nodes/n.yml", "content": {"classes": ["big%d" % j for j in range(len(cls))], "applications": files[-1] if len(files) > 1 else []}}
+                yield {"op": "inventory", "config": {}, "files": cls + [node], "fam": "long"}
         # the node's list is the accumulation of the per-file lists in merge order (with C01)
         M = 80 if tier == "quick" else 2000
         apps = ["app_a", "app_b", "app_c", "~app_a", "~app_b", "~app_c", "app_d", "~~x"]
